@@ -56,6 +56,17 @@ def ordered {K V : Type} [DecidableEq K] [DecidableEq V] (cmp : K → K → Orde
           | some (a', p) => (sl.set! i a', s!"{vc.shw ((a'[p]?.map (·.2)).getD dflt)} {a'.length}")
           | none => oob
         | none => bad
+      -- `m[k] = m[j]` as the mathematical history reads it: the value of `j` (created with the default when
+      -- missing, by the non-const operator[] on the right-hand side), then assigned to `k`
+      | "asgfrom", [k, j] => match kc.parse k, kc.parse j with
+        | some k, some j => match Map.index cmp a j dflt with
+          | some (a1, p) =>
+            let v := (a1[p]?.map (·.2)).getD dflt
+            match Map.assign cmp a1 k dflt v with
+            | some a' => (sl.set! i a', s!"ok {a'.length}")
+            | none => oob
+          | none => oob
+        | _, _ => bad
       | "cidx", [k] => match kc.parse k with
         | some k => match Map.get cmp a k dflt with
           | some v => (sl, s!"{vc.shw v} {a.length}")
@@ -127,6 +138,14 @@ def hashed {K V : Type} [DecidableEq K] [DecidableEq V] (h : K → Nat) (kc : Co
         | some k => let a' := HashMap.index h dflt a k
                     (sl.set! i a', s!"{vc.shw (HashMap.get h a' k dflt)} {a'.n}")
         | none => bad
+      -- `m[k] = m[j]`: g++ (-std=c++11) evaluates the right-hand operator[] first
+      | "asgfrom", [k, j] => match kc.parse k, kc.parse j with
+        | some k, some j =>
+          let a1 := HashMap.index h dflt a j
+          let v := HashMap.get h a1 j dflt
+          let a' := HashMap.assign h dflt a1 k v
+          (sl.set! i a', s!"ok {a'.n}")
+        | _, _ => bad
       | "cidx", [k] => match kc.parse k with
         | some k => (sl, s!"{vc.shw (HashMap.get h a k dflt)} {a.n}")
         | none => bad
